@@ -726,6 +726,7 @@ class BaseConnector:
             fut: asyncio.Future[None] = self._loop.create_future()
             keyed_waiters = self._waiters[key]
             keyed_waiters[fut] = None
+            resumed = False
             if attempts:
                 # If we have waited before, we need to move the waiter
                 # to the front of the queue as otherwise we might get
@@ -742,12 +743,17 @@ class BaseConnector:
                 if traces:
                     for trace in traces:
                         await trace.send_connection_queued_end()
+                resumed = True
             finally:
                 # pop the waiter from the queue if its still
                 # there and not already removed by _release_waiter
                 keyed_waiters.pop(fut, None)
                 if not self._waiters.get(key, True):
                     del self._waiters[key]
+                if not resumed and fut.done() and not fut.cancelled():
+                    # Woken up but leaving by an exception (cancelled or timed
+                    # out before running): hand the wake-up to the next waiter.
+                    self._release_waiter()
 
             if self._available_connections(key) > 0:
                 break
